@@ -7,6 +7,7 @@
 import RSVerif.Proofs.Hom
 import RSVerif.Proofs.Layout
 import RSVerif.Proofs.RestoredBasic
+import RSVerif.Proofs.BlocksSpec
 
 namespace RS
 
@@ -53,5 +54,35 @@ theorem lengths (we : EncWork) (wd : DecWork) (i : Nat) (s : Array Nat) :
       · simp only [Option.some.injEq] at h; subst h; simp [unlayout]
       · simp at h,
    fun h => restoredOriginal_size wd i s h⟩
+
+/-- the REAL memory layout (64-byte blocks, 32 low bytes then 32 high bytes; `Shards::insert` with the
+    split tail; unused lanes of the final block keep stale bytes) refines the slot model: after `insert`
+    the data lanes hold the documented symbols and the other lanes are untouched … -/
+theorem blocks_insert (sb : Nat) (hsb : sb % 2 = 0) (old : BShard) (hold : old.size = (sb + 63) / 64)
+    (shard : Array Nat) (hs : shard.size = sb) (l : Nat) :
+    (l < sb / 2 → bLane (bInsert old shard) l = (layout sb shard)[l]!) ∧
+    (sb / 2 ≤ l → l < 32 * old.size → bLane (bInsert old shard) l = bLane old l) := by
+  constructor
+  · intro hl
+    rw [bLane_bInsert sb hsb old hold shard hs l hl]
+    simp [hl]
+  · intro h1 h2
+    exact bLane_bInsert_stale sb hsb old shard hs l h1 h2
+
+/-- … the exposed bytes (`undo_last_chunk_encoding`, slice to `shard_bytes`) depend only on the data
+    lanes, never on stale lanes; inserting and exposing is the identity on bytes … -/
+theorem blocks_expose (sb : Nat) (hsb : sb % 2 = 0) (s s' old : BShard) (hsz : s.size = (sb + 63) / 64)
+    (hsz' : s'.size = (sb + 63) / 64) (hold : old.size = (sb + 63) / 64) (shard : Array Nat)
+    (hs : shard.size = sb) (hbyte : ∀ i, i < sb → shard.getD i 0 < 256) :
+    ((∀ l, l < sb / 2 → bLane s l = bLane s' l) →
+      bSlice (bUndoLast s sb) sb = bSlice (bUndoLast s' sb) sb) ∧
+    bSlice (bUndoLast (bInsert old shard) sb) sb = shard :=
+  ⟨bSlice_bUndoLast_congr sb hsb s s' hsz hsz', bSlice_bUndoLast_bInsert sb hsb old hold shard hs hbyte⟩
+
+/-- … and every kernel acts lane-wise on (byte i, byte i+32) pairs: xor and multiply on blocks are xor
+    and multiply on lanes, so stale lanes never reach data lanes -/
+theorem blocks_lanewise (f : Sym → Sym) (x y : BShard) (l : Nat) (hl : l < 32 * x.size) :
+    bLane (bXor x y) l = bLane x l ^^^ bLane y l ∧ bLane (bMul f x) l = f (bLane x l) :=
+  ⟨bLane_bXor x y l hl, bLane_bMul f x l hl⟩
 
 end RS
